@@ -10,3 +10,5 @@ echo "== nq_format (expect: HANG)"; $T/nq_format 2>&1 | head -2
 rm -rf $T
 echo "== c17_queue (expect: late: HANG, SUCC-0 displayed=false; two: HANG, SUCC-0 displayed=false)"
 go run ./cmd/c17_queue
+T=$(mktemp -d /var/tmp/realrepro.XXXX); go build -tags verif -o $T/nq_vanish ./cmd/nq_vanish || exit 2
+echo "== nq_vanish (expect: VANISHED)"; $T/nq_vanish | tail -2; rm -rf $T
